@@ -1,8 +1,8 @@
 """C15 - response headers act as a case-insensitive map; cookies get separate lines; cookie attributes exact;
 URI-bearing helpers emit ASCII that decodes back."""
 PROP = 'C15'
-LEAN_MODULES = ['FalconModel.RespHeadersProofs']
-DRIVERS = ['hddriver']
+LEAN_MODULES = ['FalconModel.RespHeadersProofs', 'FalconModel.CookieOutProofs']
+DRIVERS = ['hddriver', 'cwdriver']
 THEOREMS = [
     # round 0: operation-wise statements over an abstract normalisation `norm` (= str.lower) and `cookie` (= 'set-cookie')
     'Hd.get_after_set', 'Hd.get_after_set_other', 'Hd.get_after_delete', 'Hd.get_after_append', 'Hd.cookie_unreachable',
@@ -11,6 +11,19 @@ THEOREMS = [
     'Hd.history_refines_ci_map', 'Hd.absMap_applyOp', 'Hd.wf_run', 'Hd.wf_applyOp',
     'Hd.emit_each_plain_header_once', 'Hd.one_line_per_cookie_and_per_raw_append', 'Hd.emitted_after_history',
     'Hd.jar_untouched_by_plain', 'Hd.plain_untouched_by_cookie', 'Hd.setCookie_fresh_last', 'Hd.unsetCookie_line',
+    # round 2: what a cookie line looks like (CookieOut.lean: set_cookie / unset_cookie / Morsel.OutputString / _quote / strftime / _getdate)
+    'Cw.setCookie_spec', 'Cw.runSteps_spec', 'Cw.setCookie_accepts', 'Cw.setCookie_rejects', 'Cw.setCookieLine_ok_iff',
+    'Cw.splitSS_joinSS', 'Cw.attrPieces_eq', 'Cw.morsel_keys_sublist', 'Cw.morsel_clean', 'Cw.parse_output', 'Cw.morselAttrs_final',
+    'Cw.cookie_attrs_exact', 'Cw.line_attr',
+    'Cw.attr_domain', 'Cw.attr_expires', 'Cw.attr_httponly', 'Cw.attr_maxage', 'Cw.attr_partitioned', 'Cw.attr_path', 'Cw.attr_samesite', 'Cw.attr_secure', 'Cw.attr_other',
+    'Cw.attr_maxage_iff', 'Cw.attr_maxage_zero', 'Cw.attr_expires_iff', 'Cw.secure_defaults_from_option', 'Cw.secure_absent_otherwise', 'Cw.attr_samesite_iff', 'Cw.ssVal_mem',
+    'Cw.invalid_same_site_rejected', 'Cw.invalid_same_site_value_error', 'Cw.nameOk_iff', 'Cw.nameOk_token', 'Cw.name_with_reserved_char_rejected',
+    'Cw.isLegal_not_reserved', 'Cw.translate_eq', 'Cw.flatMap_translate', 'Cw.cookieValue_quote', 'Cw.semi_not_mem_quote', 'Cw.parse_pair', 'Cw.cookie_echo_reads_back',
+    'Cw.unsetCookie_spec', 'Cw.unset_cookie_is_expired', 'Cw.unset_cookie_echo', 'Cw.jar_set_fresh', 'Cw.jar_lines_after_set',
+    'Cw.monthDay_tbl', 'Cw.dby_digits', 'Cw.year_split', 'Cw.ord2ymd_spec', 'Cw.epoch_gmtime', 'Cw.gmtime_fourDigit', 'Cw.getdate_eq_imfDate', 'Cw.toUtc_instant',
+    'Cw.natDec_4', 'Cw.imfDate_dateChars', 'Cw.parseDate_imfDate', 'Cw.weekdayOfOrd_succ', 'Cw.weekday_epoch',
+    # the request-side facts the echo theorem composes with (C09 owns the model)
+    'Ck.unquote_quote', 'Ck.cUnquote_quote',
 ]
 STATEMENTS = {
     'Hd.get_after_set': 'after set_header(a, v), get_header(b) returns v for every spelling b that normalises like a',
@@ -27,10 +40,39 @@ STATEMENTS = {
     'Hd.emitted_after_history': 'both emission facts hold for the response reached by any history from the fresh response',
     'Hd.jar_untouched_by_plain': 'no plain-header call and no typed property changes the cookie jar',
     'Hd.setCookie_fresh_last': 'set_cookie drops whatever the jar held under that name and emits the new line last (fix ae30cad)',
+    'Cw.setCookie_spec': 'set_cookie, completely: which of its checks raises (name not ASCII / contains a colon / value not ASCII / reserved or illegal key / date overflow / int(max_age) / same_site) in which order, what each failure leaves in the jar, and the morsel of a successful call as a function of the arguments and secure_cookies_by_default',
+    'Cw.setCookieLine_ok_iff': 'set_cookie returns normally iff the name is accepted, the value is ASCII, expires converts to UTC, int(max_age) succeeds and same_site is empty or lax/strict/none in any case; the line is then OutputString of that morsel',
+    'Cw.parse_output': 'Morsel.OutputString can be read back: splitting the line at "; " and each piece at its first "=" returns the key, the coded value and the attribute list (key and values free of ";")',
+    'Cw.morsel_keys_sublist': 'the attribute names of any line are a sub-sequence of Domain, expires, HttpOnly, Max-Age, Partitioned, Path, SameSite, Secure in this order: none twice, no other',
+    'Cw.cookie_attrs_exact': 'for every call set_cookie accepts (Domain/Path without ";"): the emitted line, split at "; " and "=", is the name, the _quote-coded value and exactly the requested attributes in sorted order - Domain/Path iff non-empty, expires iff given (IMF-fixdate of its UTC time), HttpOnly iff http_only, Max-Age iff max_age is not None with int() of it, Partitioned iff given, SameSite iff non-empty, Secure iff secure or (secure is None and the option)',
+    'Cw.attr_other': 'no attribute other than those eight is ever written',
+    'Cw.attr_maxage_iff': 'Max-Age is present iff max_age was given - also for 0 (fix c04363d)',
+    'Cw.attr_maxage_zero': 'max_age=0 is written as Max-Age=0',
+    'Cw.attr_expires_iff': 'expires is present iff it was given',
+    'Cw.secure_defaults_from_option': 'Secure is written iff secure=True, or secure was left None and resp_options.secure_cookies_by_default is on',
+    'Cw.secure_absent_otherwise': 'Secure is absent iff secure=False, or secure is None and the option is off',
+    'Cw.attr_samesite_iff': 'SameSite is absent for None/empty and otherwise is exactly Lax, Strict or None according to the argument read case-insensitively',
+    'Cw.invalid_same_site_rejected': 'any non-empty same_site that is not lax/strict/none (case-insensitively) makes set_cookie raise, whatever the other arguments; no line is returned',
+    'Cw.invalid_same_site_value_error': 'if the rest of the call is acceptable the exception is the same_site ValueError, and the jar is left with the cookie lacking SameSite and Partitioned',
+    'Cw.nameOk_iff': 'a name is accepted iff it is non-empty, consists of http.cookies legal characters other than ":" and is not (case-insensitively) a reserved attribute name',
+    'Cw.name_with_reserved_char_rejected': 'a name that is empty, contains any character of the request parser\'s _COOKIE_NAME_RESERVED_CHARS (incl. ":"; fix 9cb24a9) or any non-ASCII character is rejected with one of the name errors (KeyError) - ValueError only if the value is non-ASCII too - and never stored',
+    'Cw.cookieValue_quote': 'for every Latin-1 value the request side (DQUOTE removal + http.cookies._unquote) inverts http.cookies._quote, via Ck.unquote_quote',
+    'Cw.cookie_echo_reads_back': 'for every call set_cookie accepts: the cookie-pair of the emitted line (text before the first "; "), sent back as a Cookie header, is parsed by _parse_cookie_header as exactly {name: [value]}; req.cookies = {name: value}, get_cookie_values(name) = [value]',
+    'Cw.unset_cookie_is_expired': 'whatever an earlier set_cookie left under the name, the line of unset_cookie produced at time t (1970 < t < year 10000) has the empty value (""), no Max-Age, and an Expires that an IMF-fixdate reader understands as the instant t-1',
+    'Cw.unset_cookie_echo': 'the cookie-pair of an unset cookie reads back as the name with the empty value',
+    'Cw.jar_set_fresh': 'an accepted set_cookie replaces the jar entry of the name by the morsel of this call alone, placed last (fix ae30cad)',
+    'Cw.ord2ymd_spec': '_ord2ymd inverts _ymd2ord on every day number >= 1 and returns month 1..12, day 1..31; years stay within 1..9999 / >= 1970 on the corresponding ranges',
+    'Cw.epoch_gmtime': 'the civil time gmtime(t) denotes exactly t seconds after 1970-01-01T00:00:00Z',
+    'Cw.toUtc_instant': 'astimezone(utc) of an aware expires keeps the instant: epoch(UTC fields) = epoch(local fields) - utcoffset',
+    'Cw.parseDate_imfDate': 'an IMF-fixdate reader returns the civil fields the expires text was rendered from (four-digit years)',
+    'Cw.getdate_eq_imfDate': 'before the year 10000 http.cookies._getdate writes the same text as strftime would for that moment',
+    'Cw.weekdayOfOrd_succ': 'consecutive days have consecutive weekdays; with Cw.weekday_epoch (1970-01-01 is a Thursday) this fixes the weekday of every date',
 }
 TRUSTED = [
-    'http.cookies.Morsel.OutputString (attribute order/format, value quoting) and datetime.strftime; email.utils / urllib.parse as reference formatters/decoders in the oracle',
-    'str.lower on ASCII header names = the abstract `norm` of the theorems; the cookie jar is modelled as a dict name -> rendered line (the rendering itself is judged by the oracle, not the model)',
+    'http.cookies (SimpleCookie.__setitem__, Morsel.set / OutputString, _quote, _getdate), datetime.strftime(%a, %d %b %Y %H:%M:%S GMT) on glibc, datetime.astimezone(utc) and time.gmtime are TRANSCRIBED in CookieOut.lean; '
+    'their agreement with CPython 3.12 is established by the exact-line correspondence only. email.utils / urllib.parse serve as reference formatters/decoders in the oracle',
+    'str.lower on ASCII header names = the abstract `norm` of the Hd theorems; in the Hd model the cookie jar is a dict name -> rendered line (Cw produces that line); '
+    'same_site.lower()/capitalize() are modelled on ASCII (no non-ASCII character lower-cases to a letter of lax/strict/none); int(str) as in C09 (Hp.pyInt, Latin-1)',
 ]
 ASSUMPTIONS = [
     'header names are ASCII tokens in arbitrary letter case; values are str over printable ASCII / latin-1 (raw Set-Cookie values ASCII); list-valued properties (cache_control, vary) get lists/tuples, etag is non-empty',
@@ -39,27 +81,40 @@ ASSUMPTIONS = [
     'cookie names are RFC 6265 tokens that are not attribute names reserved by http.cookies; every other name (incl. one containing a colon, fix 9cb24a9) must be rejected with KeyError',
     'a set_cookie call that raises (invalid same_site) may or may not leave its cookie behind; only cookies of successful calls are judged',
     'unset_cookie is judged on: empty value, Expires in the past, no Max-Age, and the domain / path / samesite it was given; attributes inherited from an earlier set_cookie of the same name (Secure, HttpOnly, ...) are pinned upstream behaviour and not judged',
+    'Cw theorems that read a line back assume Domain / Path (and the samesite given to unset_cookie) contain no ";" (RFC 6265 av-octets); the model itself and the correspondence cover such values too (they are emitted raw). '
+    'max_age is an int, a str or a finite float; expires is a datetime whose tzinfo (if any) yields a whole-second utcoffset; the clock is after 1970. '
+    'An expires before the year 1000 is rendered by glibc strftime without zero padding ("01 Jan 999"): transcribed as such in the model, outside the oracle\'s domain (years 1971-2090)',
 ]
 RULE = ('histories of 1..12 operations (set / append / delete / get / set_headers as list and dict incl. Set-Cookie items at any position / 16 typed properties '
         'set, set-to-None and del / append_link / set_cookie / unset_cookie / raw append_header(Set-Cookie)) over ~25 header names in random per-letter casing and values over '
         'printable ASCII + latin-1, on falcon.Response and falcon.asgi.Response; after every operation the touched header is read back in three casings; finally both '
         '_wsgi_headers() and _asgi_headers() are emitted. Cookie cases: random attribute combinations (expires naive/aware, max-age int/float/str/0, domain, path, secure '
         'tri-state x secure_cookies_by_default, http_only, same_site in any case incl. invalid, partitioned) through full WSGI and ASGI apps, echoed back through the request API. '
+        'Cookie lines: 1..5 set_cookie / unset_cookie calls on one falcon.Response or falcon.asgi.Response (22 names incl. reserved, non-ASCII, colon, empty; values incl. non-ASCII; the attribute '
+        'combinations above plus datetimes over years 1..9999 with second-granular offsets, overflow at both ends, leap days, max_age strings with sign / blanks / underscores / garbage, negative and huge '
+        'floats, non-ASCII same_site, Domain/Path containing "; "), after every call the exact Set-Cookie values of _wsgi_headers() / _asgi_headers() (taken within one clock second) and every exception '
+        'kind are compared with the Cw model; each set_cookie is repeated on a fresh response against the stateless setCookieLine. '
         'URI cases: unicode targets / titles / filenames through location, content_location, append_link, downloadable_as, viewable_as. '
         'non-trivial = at least one mutation succeeded; distinct = distinct operation list')
-PARTIAL = ('the cookie attribute rendering (Morsel), the typed-property value transforms and the URI/RFC 5987 encoders are not modelled in Lean: '
-           'they are checked by the statement oracle on every run (C10 proves the uri encode/decode round trip separately)')
+PARTIAL = ('modelled and proved: the three header stores (Hd) and the text of every cookie line (Cw: set_cookie / unset_cookie / Morsel.OutputString / _quote / strftime / astimezone / _getdate, '
+           'attributes exact, Secure default, rejections, echo through the request parser Ck, expiry of unset cookies). Not modelled in Lean: the typed-property value transforms and the URI / RFC 5987 '
+           'encoders (location, content_location, append_link, downloadable_as, viewable_as) - they are checked by the statement oracle on every run (C10 proves the uri encode/decode round trip separately). '
+           'The Hd jar theorems take a cookie line as given and Cw produces it; the two are joined by the correspondences (real lines are fed to hddriver), not by a Lean theorem. '
+           'The read-back theorems assume Domain/Path without ";"; echo is proved for one cookie-pair per header (several pairs: Ck.parseCookieHeader_render covers RFC cookie-octet values only).')
 JOBS = {'quick': 4, 'thorough': 16}
 
 LEVEL_TEXT = ('Machine-checked proofs (Lean 4) about a transcription of the three header stores of falcon.Response (_headers dict, _extra_headers list, cookie jar): '
               'for every history of operations a read in any spelling returns what a map keyed by normalised names holds (history_refines_ci_map), Set-Cookie is out of reach '
               'of the plain calls, and the emitted list contains each plain header exactly once plus one separate Set-Cookie line per raw append and per cookie '
-              '(wf_run, emit_each_plain_header_once, one_line_per_cookie_and_per_raw_append). The model is tied to falcon/response.py and falcon/asgi/response.py on every run by a '
-              'differential correspondence over random histories (every read, every HeaderNotSupported, the exact emitted list on both stacks); an independent oracle written from '
+              '(wf_run, emit_each_plain_header_once, one_line_per_cookie_and_per_raw_append). A second model (Cw) transcribes set_cookie / unset_cookie and http.cookies rendering down to the characters '
+              'of the Set-Cookie value: setCookie_spec characterises every check and the resulting morsel; cookie_attrs_exact shows the emitted line reads back as exactly the requested attributes '
+              '(Max-Age iff given incl. 0, Secure from the option, SameSite capitalised, ...); cookie_echo_reads_back composes with the request-side parser model of C09 (Ck.unquote_quote); '
+              'unset_cookie_is_expired uses a proved calendar (ord2ymd_spec, epoch_gmtime) to show the Expires text denotes t-1. The models are tied to falcon/response.py and falcon/asgi/response.py on every run by a '
+              'differential correspondence over random histories (every read, every HeaderNotSupported, the exact emitted list on both stacks; for cookies the exact text of every line and every exception kind); an independent oracle written from '
               'the statement additionally judges cookie attributes, cookie echo through the request API, expiry of unset cookies and the ASCII/decode-back claims of the URI-bearing helpers.')
-LEVEL_NOTE = ('Trusted: Lean kernel + standard axioms; correspondence harness and oracle; http.cookies.Morsel rendering; str.lower = norm on ASCII names. '
-              'Cookie attribute rendering, property transforms and URI encoders are oracle-checked, not proved.')
-TECHNIQUE = 'Lean 4 refinement proof (three header stores -> case-insensitive map + emitted list) + differential correspondence vs. real Response classes + statement oracle'
+LEVEL_NOTE = ('Trusted: Lean kernel + standard axioms; correspondence harness and oracle; that CookieOut.lean transcribes http.cookies / strftime / gmtime faithfully (checked by the exact-line correspondence); '
+              'str.lower = norm on ASCII names. Property transforms and URI encoders are oracle-checked, not proved.')
+TECHNIQUE = 'Lean 4 refinement proof (three header stores -> case-insensitive map + emitted list) + Lean 4 render/parse round-trip proofs for cookie lines + differential correspondence vs. real Response classes + statement oracle'
 
 _UNRES = 'ABCDEFGHIJKLMNOPQRSTUVWXYZabcdefghijklmnopqrstuvwxyz0123456789-._~'
 _URI_OK = _UNRES + ":/?#[]@!$&'()*+,;="
@@ -829,7 +884,7 @@ def rand_cw_kwargs(rnd):
             base = base.replace(tzinfo=timezone.utc if off == 0 and rnd.random() < 0.5 else timezone(timedelta(seconds=off)))
         kw['expires'] = base
     if rnd.random() < 0.15:
-        kw['max_age'] = rnd.choice(['abc', '', ' 12 ', '+5', '-3', '1_000', '1__0', '_1', '1.5', '0x10', '\t7\n', '1 2', '-', '\xa05', -1, -300, 10 ** 20, -0.9, -15.7, 1e20,
+        kw['max_age'] = rnd.choice(['abc', '', ' 12 ', '+5', '-3', '1_000', '1__0', '_1', '1.5', '0x10', '\t7\n', '1 2', '-', '\xa05', '\x1c5', '7\x1f', '\x856', -1, -300, 10 ** 20, -0.9, -15.7, 1e20,
                                     2.5, 1e-9, 3.0, '12\xe9'])
     if rnd.random() < 0.1:
         kw['same_site'] = rnd.choice(['LaK', 'STRİCT', 'lax ', ' lax', 'n\xf6ne', 'strict\n', 'L', 'laxlax', 'NoNe', 'sTRICT'])
